@@ -130,12 +130,15 @@ FoldNames(st, ns) == IF ns = <<>> THEN st ELSE FoldNames(StepName(st, Head(ns)),
 \* e is processed with nothing pending
 Plain(st, e) ==
   CASE e.t = "dd"     -> [st EXCEPT !.posOnly = TRUE, !.frozen = TRUE]
-    [] e.t = "help"   -> [st EXCEPT !.helpAt = IF @.set THEN @ ELSE [set |-> TRUE, path |-> st.path, vtag |-> ""],
-                                   !.frozen = TRUE]
-    [] e.t = "ver"    -> IF Cur(st).lvl.version
-                         THEN [st EXCEPT !.verAt = IF @.set THEN @ ELSE [set |-> TRUE, path |-> st.path, vtag |-> Cur(st).lvl.vtag],
-                                         !.frozen = TRUE]
-                         ELSE Kill(st, "unknown")
+    \* help and version are asked with the names the CURRENT level configures (default -h/--help, -V/--version);
+    \* the same text is an ordinary unknown flag at a level that configures other names or no version
+    [] e.t \in {"help", "ver"} ->
+         IF e.txt \in RangeOf(Cur(st).lvl.help_names)
+         THEN [st EXCEPT !.helpAt = IF @.set THEN @ ELSE [set |-> TRUE, path |-> st.path, vtag |-> ""], !.frozen = TRUE]
+         ELSE IF Cur(st).lvl.version /\ e.txt \in RangeOf(Cur(st).lvl.ver_names)
+         THEN [st EXCEPT !.verAt = IF @.set THEN @ ELSE [set |-> TRUE, path |-> st.path, vtag |-> Cur(st).lvl.vtag],
+                         !.frozen = TRUE]
+         ELSE Kill(st, "unknown")
     [] e.t = "unk"    -> Kill(st, "unknown")
     [] e.t = "name"   -> StepName(st, e.s)
     [] e.t = "eq" -> StepAttached(st, e.s, e.v)
@@ -319,9 +322,11 @@ Alphabet(def) ==
   UNION {UNION {LeafItems(def, l.named[k]) : k \in DOMAIN l.named} : l \in AllLevels(def)}
   \cup (IF A.clusters THEN UNION {ClusterItems(def, l) : l \in AllLevels(def)} ELSE {})
   \cup {[t |-> "word", s |-> w, txt |-> w] : w \in RangeOf(A.words) \cup CmdNames(def)}
-  \cup {[t |-> (CASE x = "helpshort" -> "help" [] x = "vershort" -> "ver" [] x = "unkshort" -> "unk" [] OTHER -> x),
+  \cup {[t |-> (CASE x \in {"helpshort", "althelp"} -> "help" [] x \in {"vershort", "altver"} -> "ver"
+                  [] x = "unkshort" -> "unk" [] OTHER -> x),
          s |-> "", txt |-> (CASE x = "dd" -> "--" [] x = "help" -> "--help" [] x = "helpshort" -> "-h"
                               [] x = "ver" -> "--version" [] x = "vershort" -> "-V"
+                              [] x = "althelp" -> "--aide" [] x = "altver" -> "--vers"
                               [] x = "unk" -> "--zz" [] x = "unkshort" -> "-Z")] : x \in RangeOf(A.extras)}
 
 (* ------------------------------------------------------------------ state machine *)
